@@ -137,7 +137,7 @@ func layer1(r []Ty, small []Ty, full bool) []Ty {
 		}
 	}
 	out = append(out, Var(Int(1, 2), Int(1, 2)), Var(Atom("str"), Int(1, 2), Atom("undef")))
-	for _, k := range []string{"opt", "nu", "type", "sens", "iter"} {
+	for _, k := range []string{"opt", "nu", "type", "sens", "iter", "itr"} {
 		for _, e := range r {
 			out = append(out, Wrap1(k, e))
 		}
